@@ -171,7 +171,7 @@ def rule_r7(ctx: Ctx) -> None:
     OTHER = "/deps/Other.1.0.dsdl"
     n = 0
     seen: Set[Tuple[str, int]] = set()
-    for mod_name in ("_parser", "_dsdl_definition", "_namespace_reader", "_data_type_builder"):
+    for mod_name in ctx.repo.with_satellites(("_parser", "_dsdl_definition", "_namespace_reader", "_data_type_builder")):
         mod = ctx.repo.module(mod_name)
         fns = list(mod.functions.values()) + [m for c in mod.classes.values() for m in c.methods.values()]
         # a handler is reported once, at the function that lexically contains it (helpers are expanded into their callers)
